@@ -18,31 +18,61 @@ TInit == /\ i = 1 /\ RejectInit /\ TLCSet(2, 0)
          /\ outChanProbe = <<>> /\ outTemplates = <<>> /\ outPcInd = <<>> /\ outTfInd = <<>>
 AllHave(f) == \A k \in 1..NP : probes[k][f] # <<>>
 TsvNames == {"Amplitude", "ContamPct", "KSLabel"}
+\* ---- relational P-layer on the LOGGED output: the statement does not fix the VALUE of the per-probe
+\* offsets, only that there is one per probe and that ids of different probes never collide. The order of
+\* the merged spikes, on the other hand, is fixed by the statement (time, then probe, then original order),
+\* so the machine's spikeOrder is the P-layer order.
+SpikesOf(k) == {q \in 1..Len(spikeOrder) : spikeOrder[q][1] = k}
+COff(o, k) == LET q == CHOOSE x \in SpikesOf(k) : TRUE IN o.sc[q] - probes[k].sc[spikeOrder[q][2]]
+TOff(o, k) == LET q == CHOOSE x \in SpikesOf(k) : TRUE IN o.st[q] - probes[k].st[spikeOrder[q][2]]
+IdsOk(o) ==
+   /\ Len(o.sc) = Len(spikeOrder) /\ Len(o.st) = Len(spikeOrder)
+   /\ \A k \in 1..NP : \A q \in SpikesOf(k) :
+         /\ o.sc[q] - probes[k].sc[spikeOrder[q][2]] = COff(o, k)
+         /\ o.st[q] - probes[k].st[spikeOrder[q][2]] = TOff(o, k)
+   /\ \A k1 \in 1..NP, k2 \in 1..NP : k1 # k2 =>
+         /\ {x + COff(o, k1) : x \in SeqSet(probes[k1].sc)} \cap {x + COff(o, k2) : x \in SeqSet(probes[k2].sc)} = {}
+         /\ {x + TOff(o, k1) : x \in 0..(probes[k1].ntm - 1)} \cap {x + TOff(o, k2) : x \in 0..(probes[k2].ntm - 1)} = {}
+ClusterProbesP(o) == \A k \in 1..NP : \A x \in SeqSet(probes[k].sc) :
+   x + COff(o, k) + 1 \in 1..Len(o.cprobes) /\ o.cprobes[x + COff(o, k) + 1] = k - 1
+MetadataP(o) == \A nm \in TsvNames :
+   /\ SeqSet(o.tsv[nm]) = UNION {{<<e[1] + COff(o, k), e[2]>> : e \in SeqSet(probes[k].tsv[nm])} : k \in 1..NP}
+   /\ Len(o.tsv[nm]) = SumSeq([k \in 1..NP |-> Len(probes[k].tsv[nm])])
+\* template t of probe k sits at row TOff(k) + t, on block k, zeros elsewhere
+TemplateRowsP(o) == \A k \in 1..NP : \A t \in 1..probes[k].ntm :
+   TOff(o, k) + t \in 1..Len(o.T) /\ o.T[TOff(o, k) + t] = ExpectedTemplate(k, t)
+PcIndP(o) == \A k \in 1..NP : \A t \in 1..probes[k].ntm :
+   /\ TOff(o, k) + t \in 1..Len(o.pcind)
+   /\ o.pcind[TOff(o, k) + t] = [j \in 1..Len(probes[k].pcind[t]) |-> probes[k].pcind[t][j] + NchBefore(k)]
+TfIndP(o) == \A k \in 1..NP : \A t \in 1..probes[k].ntm :
+   /\ TOff(o, k) + t \in 1..Len(o.tfind)
+   /\ o.tfind[TOff(o, k) + t] = [j \in 1..Len(probes[k].tfind[t]) |-> probes[k].tfind[t][j] + TOff(o, k)]
 Check1(r) ==
   LET o == r.out IN
-  \* ---- C11
-  /\ Clause(r.id, "C11.I.times", outTimes = o.times)
-  /\ Clause(r.id, "C11.I.clusters", outClu = o.sc)
-  /\ Clause(r.id, "C11.I.templates", outTmp = o.st)
+  \* ---- C11 (P-layer)
+  /\ Clause(r.id, "C11.times", outTimes = o.times)
   /\ Clause(r.id, "C11.amplitudes", o.amps = [q \in 1..Len(spikeOrder) |-> probes[spikeOrder[q][1]].amps[spikeOrder[q][2]]])
   /\ Clause(r.id, "C11.Conservation", Conservation)
   /\ Clause(r.id, "C11.OrderedByTimeProbeIndex", OrderedByTimeProbeIndex)
-  /\ Clause(r.id, "C11.IdsShifted", IdsShifted)
-  /\ Clause(r.id, "C11.IdsDisjoint", IdsDisjoint)
-  /\ Clause(r.id, "C11.cluster_probes", ClusterProbesOk(o.cprobes))
-  /\ Clause(r.id, "C11.metadata", \A nm \in TsvNames : SeqSet(o.tsv[nm]) = MergedTsv(nm) /\ Len(o.tsv[nm]) = Cardinality(MergedTsv(nm)))
+  /\ Clause(r.id, "C11.ids", IdsOk(o))
+  /\ IdsOk(o) => /\ Clause(r.id, "C11.cluster_probes", ClusterProbesP(o))
+                 /\ Clause(r.id, "C11.metadata", MetadataP(o))
   /\ Clause(r.id, "C11.inputs_unchanged", r.inputsUnchanged)
-  /\ Clause(r.id, "C11.steps", r.steps = <<"write_params", "write_probe_desc", "write_spike_times", "write_spike_data",
-                                          "write_spike_clusters", "write_cluster_data", "write_channel_data",
-                                          "write_channel_positions", "write_templates", "write_template_data", "write_misc">>)
-  \* ---- C12
-  /\ Clause(r.id, "C12.I.channel_map", outChanMap = o.chmap)
+  \* ---- C11 (agreement with the transcription: informational)
+  /\ Clause(r.id, "I.clusters", outClu = o.sc)
+  /\ Clause(r.id, "I.templates", outTmp = o.st)
+  /\ Clause(r.id, "I.cluster_probes", ClusterProbesOk(o.cprobes))
+  /\ Clause(r.id, "I.steps", r.steps = <<"write_params", "write_probe_desc", "write_spike_times", "write_spike_data",
+                                        "write_spike_clusters", "write_cluster_data", "write_channel_data",
+                                        "write_channel_positions", "write_templates", "write_template_data", "write_misc">>)
+  /\ Clause(r.id, "I.channel_map", outChanMap = o.chmap)
+  \* ---- C12 (P-layer)
   /\ Clause(r.id, "C12.ChannelBlocks", outChanProbe = o.chprobe /\ ChannelBlocks)
   /\ Clause(r.id, "C12.geometry", GeometryOk(o.posx, o.posy))
-  /\ Clause(r.id, "C12.TemplateBlocks", o.T = ExpectedTemplates)
-  /\ Clause(r.id, "C12.SpikeTemplateOnOwnBlock", SpikeTemplateOnOwnBlock)
-  /\ Clause(r.id, "C12.PcIndShifted", outPcInd = o.pcind /\ PcIndShifted)
-  /\ Clause(r.id, "C12.TfIndShifted", outTfInd = o.tfind /\ TfIndShifted)
+  /\ Len(o.st) = Len(spikeOrder) =>
+        /\ Clause(r.id, "C12.TemplateBlocks", Len(o.T) = SumSeq([k \in 1..NP |-> probes[k].ntm]) /\ TemplateRowsP(o))
+        /\ Clause(r.id, "C12.PcIndShifted", PcIndP(o))
+        /\ Clause(r.id, "C12.TfIndShifted", TfIndP(o))
   /\ Clause(r.id, "C12.whitening", o.wm = (IF AllHave("wm") THEN BlockDiag([k \in 1..NP |-> probes[k].wm]) ELSE <<>>))
   /\ Clause(r.id, "C12.whitening_inv", o.wmi = (IF AllHave("wmi") THEN BlockDiag([k \in 1..NP |-> probes[k].wmi]) ELSE <<>>))
   /\ Clause(r.id, "C12.similarity", o.sim = (IF AllHave("sim") THEN BlockDiag([k \in 1..NP |-> probes[k].sim]) ELSE <<>>))
